@@ -898,22 +898,26 @@ impl PreExp {
             Self::BinaryOperation(_, _, _) | Self::UnaryOperation(_, _)
         )
     }
-    fn to_string_with_precedence(&self, previous_precedence: u8) -> String {
+    /// Renders `self` as the left or right operand of `parent`, keeping every pair of
+    /// parentheses that decides the grouping: a lower-precedence operand always needs them,
+    /// and at equal precedence so does the operand on the side the parent does not
+    /// associate to (`a - (b - c)`, `a / (b * c)`, `(p -> q) -> r`); implies and iff share
+    /// a level but associate differently, so mixed operands are parenthesised too.
+    fn to_string_as_operand(&self, parent: BinOp, is_left: bool) -> String {
         match self {
-            Self::BinaryOperation(op, lhs, rhs) => {
-                //TODO add implied multiplication like 2x 2(x + y) etc...
-                /*
-                   implicit_mul = {
-                       (number | parenthesis){2,} ~ variable? |
-                       (number | parenthesis) ~ variable
-                   }
-                */
-                let lhs_str = lhs.to_string_with_precedence(op.precedence());
-                let rhs_str = rhs.to_string_with_precedence(op.precedence());
-                if op.precedence() < previous_precedence {
-                    format!("({} {} {})", lhs_str, **op, rhs_str)
+            Self::BinaryOperation(op, _, _) => {
+                let op = **op;
+                let needs_parenthesis = if op.precedence() != parent.precedence() {
+                    op.precedence() < parent.precedence()
+                } else if parent.is_left_associative() {
+                    !(is_left && op.is_left_associative())
                 } else {
-                    format!("{} {} {}", lhs_str, **op, rhs_str)
+                    is_left || op != parent
+                };
+                if needs_parenthesis {
+                    format!("({})", self)
+                } else {
+                    self.to_string()
                 }
             }
             _ => self.to_string(),
@@ -979,8 +983,8 @@ impl fmt::Display for PreExp {
             Self::BlockFunction(f) => f.to_string(),
             Self::BlockScopedFunction(f) => f.to_string(),
             Self::BinaryOperation(op, lhs, rhs) => {
-                let rhs = rhs.to_string_with_precedence(op.precedence());
-                let lhs = lhs.to_string_with_precedence(op.precedence());
+                let rhs = rhs.to_string_as_operand(**op, false);
+                let lhs = lhs.to_string_as_operand(**op, true);
                 format!("{} {} {}", lhs, **op, rhs)
             }
             Self::CompoundVariable(c) => c.to_string(),
